@@ -12,7 +12,7 @@ from vlib.nlp import NLP, close, time_like_vars, random_points, DMa
 
 ID = "C07"
 LEVEL = "exploration"
-BUDGET = {"quick": (8, 60), "thorough": (16, 2000)}
+BUDGET = {"quick": (8, 90), "thorough": (16, 2000)}
 K = 2
 SHAPES = [(1, 1), (1, 1), (2, 1), (3, 1), (1, 2), (1, 3), (2, 2), (2, 3)]
 RULE = ("Generated OCP (all sampling methods/grids/horizons) and a generated expression of shape 1x1, n x 1, 1 x n or n x m over states, quadrature states, controls, "
@@ -46,6 +46,7 @@ def strategy_(draw):
         leaves = leaves + quads
     algs = gen.leaves_of(sp.get("algebraics", [])) if dc and gname == "integrator_roots" else []
     leaves = leaves + algs
+    per_interval = gen.leaves_of([d for d in sp["params"] + sp["vars"] if d.get("grid", "") != ""])
     r, c = draw(st.sampled_from(SHAPES))
     exprs = []
     for _ in range(r * c):
@@ -54,6 +55,9 @@ def strategy_(draw):
             e = ["+", e, ["*", E.C(draw(gen.small())), draw(st.sampled_from([["T"], ["t0"], ["tf"]]))]]
         if algs and draw(st.booleans()):
             e = [draw(st.sampled_from(["+", "*"])), e, draw(st.sampled_from(algs))]
+        if per_interval and draw(st.booleans()):
+            # per-interval / per-node parameters and variables: which column applies at a point is the interesting part
+            e = ["+", e, ["*", E.C(draw(gen.small())), draw(st.sampled_from(per_interval))]]
         exprs.append(e)
     # a non-signal expression for value()
     globs = gen.leaves_of([d for d in sp["params"] + sp["vars"] if d.get("grid", "") == ""])
